@@ -2,24 +2,27 @@
 # usage: tools/seeded_eval.sh <patch.diff> <demo.py> [check ids...]
 # Applies a seeded change to /repo, runs the repository's tests and the demonstration, runs the given
 # checks (default: all), and ALWAYS restores /repo.  Prints one line per check.
+# EVAL_REPO=<worktree of /repo at the same commit> evaluates there instead (used while a long run occupies /repo);
+# TIER=thorough runs the thorough tier.
 PATCH=$(readlink -f "$1"); DEMO=$(readlink -f "$2"); shift 2
 CHECKS="$@"
 [ -z "$CHECKS" ] && CHECKS="C01 C02 C03 C04 C05 C06 C07 C08 C09 C10 C11 C12 C13 C14 C15 C16 C17 C18 C19 C20"
-cd /repo || exit 2
+R=${EVAL_REPO:-/repo}; TIER=${TIER:-quick}
+cd $R || exit 2
 if [ -n "$(git status --porcelain --untracked-files=no)" ]; then echo "REPO NOT CLEAN"; exit 2; fi
 git apply "$PATCH" || { echo "PATCH DOES NOT APPLY"; exit 2; }
-trap 'cd /repo && git checkout -- . ' EXIT INT TERM
+trap 'cd $R && git checkout -- . ' EXIT INT TERM
 T=$(SVGPATHTOOLS_VERIF= /venv/bin/python -m pytest -q -p no:cacheprovider --timeout=900 2>&1 | tail -1)
 echo "TESTS: $T"
 # the demo was written against a scratch worktree: point it at /repo
-sed "s#sys.path.insert(0, *['\"][^'\"]*['\"])#sys.path.insert(0, '/repo')#" "$DEMO" > /tmp/_seeded_demo.py
+sed "s#sys.path.insert(0, *['\"][^'\"]*['\"])#sys.path.insert(0, '$R')#" "$DEMO" > /tmp/_seeded_demo.py
 ( cd /tmp && PYTHONPATH=$(dirname "$DEMO") timeout 600 /venv/bin/python /tmp/_seeded_demo.py >/dev/null 2>&1 ); echo "DEMO with change: exit=$?"
 cd /verif
 for c in $CHECKS; do
-  out=$(timeout 1500 ./check $c --tier quick 2>&1); r=$?
+  out=$(VERIF_REPO=$R timeout 3000 ./check $c --tier $TIER 2>&1); r=$?
   echo "$c exit=$r violations=$(echo "$out" | grep -c '^VIOLATION') $(echo "$out" | grep 'clause=' | head -3 | cut -c1-200 | tr '\n' '|')"
   rm -rf /verif/replays/$c
 done
-cd /repo && git checkout -- . && trap - EXIT
+cd $R && git checkout -- . && trap - EXIT
 ( cd /tmp && PYTHONPATH=$(dirname "$DEMO") timeout 600 /venv/bin/python /tmp/_seeded_demo.py >/dev/null 2>&1 ); echo "DEMO without change: exit=$?"
 rm -f /tmp/_seeded_demo.py
